@@ -296,6 +296,37 @@ pub mod propagation {
     }
 
     /// exhaustion forwards through the rate/phase/RMS/envelope wrappers as well
+    /// a clone of the interleaved-sample adaptor taken after ANY number of samples (mid-frame included)
+    /// continues exactly where the original stands: frames x channels samples in total, then None
+    #[kani::proof]
+    #[kani::unwind(12)]
+    pub fn interleaved_clone_at_any_point() {
+        let items: [[i16; 2]; L] = kani::any();
+        let len = any_len(L);
+        let src: Probe<[i16; 2], L> = Probe::new(items, len);
+        let mut orig = src.into_interleaved_samples();
+        let taken: usize = kani::any();
+        kani::assume(taken <= 2 * len);
+        for k in 0..2 * L {
+            if k < taken {
+                assert!(orig.next_sample() == Some(items[k / 2][k % 2]));
+            }
+        }
+        let mut cl = orig.clone();
+        for k in 0..2 * L + 1 {
+            let idx = taken + k;
+            let s = cl.next_sample();
+            if idx < 2 * len {
+                assert!(s == Some(items[idx / 2][idx % 2]), "the clone yields the remaining samples in channel order");
+            } else {
+                assert!(s.is_none(), "exactly frames x channels samples before None");
+            }
+        }
+        kani::cover!(taken % 2 == 1, "cloned in the middle of a frame");
+        kani::cover!(taken == 2 * len && len > 0, "cloned at the very end");
+        kani::cover!(true, "end");
+    }
+
     #[kani::proof]
     #[kani::unwind(8)]
     pub fn forwarding_wrappers() {
